@@ -371,8 +371,19 @@ function splitFiles(rng, p) { // move some declarations to other files with impo
   const entrySrc = importLine + "\n" + kept.map((d) => (rng.chance(1, 2) ? "export " : "") + tsOfDecl(d)).join("\n") + `\nparse.buildParsers<{ ${p[2].map(([n, t]) => `${n}: ${tsOf(t)}`).join(", ")} }>();\n`;
   return [["entry.ts", entrySrc], ["lib.ts", libSrc]];
 }
+// value-level exports read through `typeof`: several members, some unsupported (more than one candidate diagnostic)
+const VALUE_EXPORTS = ['"a"', "1", "true", "null", '{ a: 1, b: "x" }', '["a", 1] as const', '"k" as const', "() => 1", "Symbol()", "new Date()", "undefinedName", "class {}", "1n", "`a${1}`", "[1, 2]", "{ f() {} }", "-1", "!0"];
+function valuesProject(rng) {
+  const n = 2 + rng.below(6);
+  const names = Array.from({ length: n }, (_, i) => rng.pick(["v", "w", "Z", "a", "m"]) + i);
+  const lib = names.map((nm) => `export const ${nm} = ${rng.pick(VALUE_EXPORTS)};`).join("\n") + (rng.chance(1, 3) ? "\nexport type T0 = string;\nexport enum En { A, B }" : "") + "\n";
+  const use = rng.pick(["typeof L", "typeof L." + names[0], "(typeof L)[keyof typeof L]", "keyof typeof L", "{ x: typeof L }"]);
+  const entry = `import * as L from "./vals";\nparse.buildParsers<{ E0: ${use} }>();\n`;
+  return [["entry.ts", entry], ["vals.ts", lib]];
+}
 export function genTotal(rng, params) {
   let p = genProg(rng);
+  if (rng.chance(1, 12)) return [A("total"), A(String(counter++)), A("none"), valuesProject(rng), []];
   const vals = genValues(rng, p, Number(params[0] || 6));
   const r = rng.below(10);
   let tied = true, files;
